@@ -23,7 +23,7 @@ for p in props:
             "evidence_file": f"/verif/evidence/{pid}.json",
             "replay_cmd_template": f"./check {pid} --tier quick  # the report in {{path}} names file:line, rule and construct",
             "engine": "kverif",
-            "level_claimed": {"category": "other", "text": c["text"], "design_ref": c["ref"]},
+            "level_claimed": {"category": "other", "text": c["text"] + " Further necessary conditions added while answering the seeded changes (forwarding of every event by the entry points, pairing and provenance of operands - old with old, like with like, an amount with the object it was read from -, units, rounding direction and clamp subjects of conversions, error-path obligations) are stated rule by rule in RULES.md and in the evidence file; they are decided the same way and, like the rest, are necessary conditions, not the behaviour.", "design_ref": c["ref"] + "; sections 11.4-11.6, 15"},
             "level_note": c["note"],
             "technique": "static analysis (go/types + go/ssa; nothing executed): " + c["technique"] + "; rules grown since are listed, per property, in RULES.md (generated from the evidence); before analysis, helpers that do not exist on the reference tree are inlined at source level and renamed functions/parameters are mapped back (DESIGN.md section 14)",
         })
